@@ -7,6 +7,11 @@ mod refmodel;
 mod c01;
 mod c02;
 mod c03;
+mod c04;
+mod c05;
+mod c12;
+mod c13;
+mod c14;
 mod c18;
 
 use common::*;
@@ -214,6 +219,11 @@ fn main() {
         "C01" => c01::run(thorough),
         "C02" => c02::run(thorough),
         "C03" => c03::run(thorough),
+        "C04" => c04::run(thorough),
+        "C05" => c05::run(thorough),
+        "C12" => c12::run(thorough),
+        "C13" => c13::run(thorough),
+        "C14" => c14::run(thorough),
         "C18" => c18::run(thorough),
         _ => {
             eprintln!("unknown property id {}", id);
